@@ -178,6 +178,8 @@ package io
 //@   requires [C08.lock-precondition] ghost.hdf5lock == 2
 //@   assigns ghost.hdf5created
 //@   ensures [C08.open-or-create-writes-no-data] ghost.hdf5datawrites == old(ghost.hdf5datawrites)
+//@   atreturn 0 [C08.existing-dataset-different-shape-refused] !err.isnil && ghost.hdf5created == old(ghost.hdf5created)
+//@   atreturn 1 [C08.existing-dataset-left-alone] err.isnil && ghost.hdf5created == old(ghost.hdf5created) && ghost.hdf5datawrites == old(ghost.hdf5datawrites)
 
 //@ func createDataset(g, path, shape, exampleValue, compress) returns (ds, err)
 //@   locals paths, dtype, err, dims, space, err, dcpl, err, ds, err, ds, err, group, err, ds, err
